@@ -336,8 +336,10 @@ Section Joint.
   Variable ok_in : I -> Prop.                      (* well-formed oracle inputs (e.g. one trial per member, no re-decoration) *)
   (* keep_cons = true: the invariant may mention the constraints function in force; SetConstraints is then not a clean operation *)
   Variable keep_cons : bool.
+  (* keep_box = true: the invariant may mention the strict ranges in force; SetStrictRanges is then not a clean operation *)
+  Variable keep_box : bool.
   Hypothesis Hcalls : forall s s' c, calls N s' = calls N s -> stepmon N s' = stepmon N s ->
-    (keep_cons = true -> u_cons N s' = u_cons N s) -> P s c -> P s' c.
+    (keep_cons = true -> u_cons N s' = u_cons N s) -> (keep_box = true -> box N s' = box N s) -> P s c -> P s' c.
   Hypothesis Hdeco : forall s c i, ok_in i -> P s c -> P s (a_decorate N C I A s c i).
   Hypothesis Hstep : forall s c i, ok_in i -> P s c ->
     let r := run_prog inf (a_nested N C I A) s (a_step N C I A s c i) in
@@ -345,8 +347,9 @@ Section Joint.
   Hypothesis Hfin : forall s c, P s c ->
     P (set_stepmon N s (stepmon N s ++ snd (a_finalize N C I A s c))) (fst (a_finalize N C I A s c)).
 
-  Lemma P_frame s s' c : calls N s' = calls N s -> stepmon N s' = stepmon N s -> u_cons N s' = u_cons N s -> P s c -> P s' c.
-  Proof. intros H1 H2 H3. apply Hcalls; auto. Qed.
+  Lemma P_frame s s' c : calls N s' = calls N s -> stepmon N s' = stepmon N s -> u_cons N s' = u_cons N s -> box N s' = box N s ->
+    P s c -> P s' c.
+  Proof. intros H1 H2 H3 H4. apply Hcalls; auto. Qed.
 
   Lemma finalize_joint s c : P s c -> P (fst (finalize N C I A s c)) (snd (finalize N C I A s c)).
   Proof.
@@ -373,16 +376,16 @@ Section Joint.
     pose proof (Hstep (fst pre) (snd sc) i Hi H2) as H3. cbv zeta in H3. fold r in H3.
     set (s2' := set_fcalls N (fst r) (a_fix_counter N C I A (fst pre) (fst r) (fst (snd r)))).
     set (s3 := set_stepmon N s2' (stepmon N s2' ++ snd (snd r))).
-    assert (H5 : P s3 (fst (snd r))) by (eapply P_frame; [| | |exact H3]; reflexivity).
+    assert (H5 : P s3 (fst (snd r))) by (eapply P_frame; [| | | |exact H3]; reflexivity).
     set (s4 := if has_cb N s3 then set_cblog N s3 (cblog N s3 ++ [fst (a_best N C I A (fst (snd r)))]) else s3).
     assert (H6 : P s4 (fst (snd r))).
-    { subst s4. destruct (has_cb N s3); [|exact H5]. eapply P_frame; [| | |exact H5]; reflexivity. }
+    { subst s4. destruct (has_cb N s3); [|exact H5]. eapply P_frame; [| | | |exact H5]; reflexivity. }
     set (t1 := terminated N C I A s4 (fst (snd r))).
-    assert (H7 : P (fst t1) (fst (snd r))) by (eapply P_frame; [| | |exact H6]; reflexivity).
+    assert (H7 : P (fst t1) (fst (snd r))) by (eapply P_frame; [| | | |exact H6]; reflexivity).
     set (fc := match snd t1 with MNone => (fst t1, fst (snd r)) | _ => finalize N C I A (fst t1) (fst (snd r)) end).
     assert (H8 : P (fst fc) (snd fc)).
     { subst fc. destruct (snd t1); auto; apply finalize_joint; exact H7. }
-    cbn [fst snd]. eapply P_frame; [| | |exact H8]; reflexivity.
+    cbn [fst snd]. eapply P_frame; [| | | |exact H8]; reflexivity.
   Qed.
 
   Lemma solve_joint : forall fuel s c is dflt, Forall ok_in is -> ok_in dflt -> P s c ->
@@ -401,7 +404,8 @@ Section Joint.
     | OSetPopulation _ => False
     | OSetStepMonitor _ => False
     | OSetConstraints _ => keep_cons = false
-    | OSetRangesCons _ _ => keep_cons = false
+    | OSetStrictRanges _ => keep_box = false
+    | OSetRangesCons _ _ => keep_cons = false /\ keep_box = false
     | OStep _ i => ok_in i
     | OSolve _ is d => Forall ok_in is /\ ok_in d
     | _ => True
@@ -413,15 +417,16 @@ Section Joint.
   Proof.
     destruct sc as [s c]. intros Hc H. cbn [fst snd] in H. cbv zeta.
     destruct o; cbn [apply fst snd fin]; try contradiction;
-      try (eapply P_frame; [| | |apply finalize_joint; exact H]; reflexivity);
-      try (eapply P_frame; [| | |exact H]; reflexivity).
+      try (eapply P_frame; [| | | |apply finalize_joint; exact H]; reflexivity);
+      try (eapply P_frame; [| | | |exact H]; reflexivity).
     - (* SetConstraints *) destruct (a_cons_finalizes N C I A).
-      + eapply Hcalls; [| | |apply finalize_joint; exact H]; try reflexivity. intros K. congruence.
-      + eapply Hcalls; [| | |exact H]; try reflexivity. intros K. congruence.
-    - (* Step *) apply step_joint; [exact Hc|]. eapply P_frame; [| | |exact H]; reflexivity.
-    - (* Solve *) destruct Hc as [Hc1 Hc2]. apply solve_joint; auto. eapply P_frame; [| | |exact H]; reflexivity.
+      + eapply Hcalls; [| | | | apply finalize_joint; exact H]; try reflexivity; intros K; congruence.
+      + eapply Hcalls; [| | | | exact H]; try reflexivity; intros K; congruence.
+    - (* SetStrictRanges *) eapply Hcalls; [| | | | apply finalize_joint; exact H]; try reflexivity; intros K; congruence.
+    - (* Step *) apply step_joint; [exact Hc|]. eapply P_frame; [| | | |exact H]; reflexivity.
+    - (* Solve *) destruct Hc as [Hc1 Hc2]. apply solve_joint; auto. eapply P_frame; [| | | |exact H]; reflexivity.
     - (* SetStrictRanges, tight / clip: the constraints function changes too *)
-      eapply Hcalls; [| | |apply finalize_joint; exact H]; try reflexivity. intros K. congruence.
+      destruct Hc as [Hc1 Hc2]. eapply Hcalls; [| | | | apply finalize_joint; exact H]; try reflexivity; intros K; congruence.
   Qed.
   Local Transparent solve step.
 
